@@ -59,7 +59,7 @@ def hosts(tier):
 
 
 def workers_for_host(tier, host):
-    return {"3.12": 4, "3.11": 3, "3.13": 3}.get(host, 2)
+    return {"3.12": 5, "3.11": 2, "3.13": 3}.get(host, 2)
 
 
 def bounds(tier):
@@ -80,7 +80,7 @@ def cases(plan, tier, shard, nshards, host):
     for pid, src in G.enumerate_programs(sys.version_info[:2], 1):
         n += 1
         if n % nshards == shard:
-            if tier == "quick" and (len(src) > 1500 or (host != common.PRIMARY and not pid.endswith("@module"))):
+            if tier == "quick" and (len(src) > 1500 or (host != common.PRIMARY and not pid.endswith("@module")) or (host == common.PRIMARY and not pid.endswith(("@module", "@nested")))):
                 continue
             yield {"kind": "prog", "id": pid, "src": src}
     if host == common.PRIMARY or tier == "thorough":
@@ -326,7 +326,7 @@ def run_case(case, ctx):
             return
         check_object(ctx, htag, "source", case["src"], [None, 100])
         for co in walk(top):
-            check_object(ctx, htag, "code", co, [None, 1, "own"] if co is not top else FIRST_LINES)
+            check_object(ctx, htag, "code", co, [None, "own"] if co is not top else [None, 100, 0])
             check_code(ctx, htag, co, case["id"] + "/" + co.co_name)
         return
     # make_std_api(v) on version-v code
